@@ -125,6 +125,12 @@ def relational_vector(vec):
                         ("stock_by_cohort", lambda s: s.get_stock_by_cohort()), ("outflow_by_cohort", lambda s: s.get_outflow_by_cohort())):
             if not allclose(f(c), np.asarray(f(a)) + 2 * np.asarray(f(b)), scale):
                 problems.append(tag + f"{{C16}} superposition fails for {name}: model(d1 + 2 d2) != model(d1) + 2 model(d2)")
+        # C16 scaling also holds for very small drivers (no absolute thresholds): model(2^-40 d) = 2^-40 model(d)
+        tiny = run_id(S, model, variant, d1 * 2.0 ** -40)
+        for name, f in (("stock", lambda s: s.stock.values), ("outflow", lambda s: s.outflow.values),
+                        ("stock_by_cohort", lambda s: s.get_stock_by_cohort())):
+            if not allclose(np.asarray(f(tiny)) * 2.0 ** 40, f(a), scale):
+                problems.append(tag + f"{{C16}} scaling fails for a driver of magnitude 1e-12: {name}(2^-40 d) != 2^-40 {name}(d)")
         # C16 causality: truncate after k
         k = rnd.randrange(0, S.n - 1)
         dk = d1.copy()
@@ -202,7 +208,7 @@ MODELS_ALL = ["FixedLifetime", "StepLifetime"] + list(lifetime_closed.MODELS)
 
 def run_relational(out, prop, tier):
     from .checks_stocks import config_list, stock_model, sig_stocks
-    cfgs = config_list(tier, out.seed)[: (8 if tier == "quick" else 60)]
+    cfgs = config_list(tier, out.seed)[: (14 if tier == "quick" else 60)]
     # the TLC run supplies the interval lengths and parameter tables (one tiny model per configuration)
     models = []
     for c in cfgs:
